@@ -466,8 +466,7 @@ def oracle_C08(inp):
     if set(got) != expected:
         out.append("find(%r) over %r: expected %r, got %r" % (s, L, sorted(expected), sorted(got)))
     # match: found by s in a list containing only itself
-    if L:
-        item = L[0]
+    for item in L[:6]:
         y = Sid(item)
         if y:
             try:
@@ -676,9 +675,25 @@ def oracle_C05(inp):
     from spil.sid.pathops.pathconfig import get_path_config
     s = inp["s"]
     out = []
+    for pre in inp.get("pre", []):      # earlier path() calls on same-string Sids of other types must not matter
+        y = Sid(pre)
+        for cfg in conf.path_configs.keys():
+            try:
+                py = y.path(cfg)
+                if py is not None and not has_path_type(y.type, cfg):
+                    out.append("%r has no path template in %r but path %r" % (y.uri, cfg, str(py)))
+            except BaseException as e:  # noqa
+                out.append("%r.path(%r) raised %s: %s" % (pre, cfg, type(e).__name__, e))
     x = Sid(s)
     if not x or x.is_search():
-        return []
+        return out
+    for pre in inp.get("pre", []):      # … and the other way round: after x's own path was asked
+        y = Sid(pre)
+        for cfg in conf.path_configs.keys():
+            x.path(cfg)
+            py = y.path(cfg)
+            if py is not None and not has_path_type(y.type, cfg):
+                out.append("%r has no path template in %r but path %r (after %r.path)" % (y.uri, cfg, str(py), x.uri))
     if any(v in ("", ".") or "/" in v for v in x.fields.values()) and not inp.get("allow_empty"):
         return []     # known finding K1 (replayed by its exact input only)
     paths = {}
@@ -1159,6 +1174,9 @@ def oracle_C18(inp):
             out.append("version %r reused" % nw.get("version"))
         seen.append(nw.get("version"))
         WriteToPaths().create(nw)
+        now_last = x.get_last("version")
+        if str(now_last) != str(nw):
+            out.append("after creating %r, get_last('version') still answers %r" % (str(nw), str(now_last)))
     return out
 
 
